@@ -282,7 +282,6 @@ def main(argv=None):
     tier = a.tier if a.tier in ("quick", "thorough") else "quick"
     if tier == "thorough":
         # the thorough tier is allowed more solver time per obligation and per branch (inherited by the forked job processes)
-        core.CHECK_TIMEOUT_MS = 60000
         core.BRANCH_TIMEOUT_MS = 6000
     t0 = time.time()
     import acnportal
